@@ -394,9 +394,18 @@ type vcase struct {
 
 type vresult struct {
 	overlap bool
+	written []bool // Parallel: which positions of data were written
 	data   []byte
 	err    error
 	panicv any
+}
+
+// parObs is the scheduler-independent part of what a Parallel download did.
+type parObs struct {
+	fileLen int
+	contig  string
+	genuine bool
+	failed  bool
 }
 
 type sink struct{ b []byte }
@@ -421,7 +430,7 @@ func runDownload(v *vcase) (res vresult) {
 		v.w.parallel = true
 		out := &atSink{}
 		_, res.err = b.WithThreads(v.threads).Parallel(context.Background(), out)
-		res.data, res.overlap = out.b, out.overlap
+		res.data, res.overlap, res.written = out.b, out.overlap, out.written
 		return res
 	}
 	out := &sink{}
@@ -454,6 +463,35 @@ func (s *atSink) WriteAt(p []byte, off int64) (int, error) {
 	}
 	copy(s.b[off:], p)
 	return len(p), nil
+}
+
+// contiguous returns the length of the prefix of a Parallel result that was written without a hole.
+func contiguous(res vresult) int {
+	if res.written == nil {
+		return len(res.data)
+	}
+	n := 0
+	for n < len(res.written) && res.written[n] {
+		n++
+	}
+	return n
+}
+
+// gapOnly: a Parallel result that is wrong only because ranges are missing — every byte that was written
+// is the genuine byte at its position, nothing lies beyond the end of the file, and there is a hole.
+func gapOnly(res vresult, file []byte) bool {
+	if res.written == nil || len(res.data) > len(file) {
+		return false
+	}
+	hole := false
+	for i, w := range res.written {
+		if !w {
+			hole = true
+		} else if res.data[i] != file[i] {
+			return false
+		}
+	}
+	return hole
 }
 
 func errTag(err error) string {
@@ -911,6 +949,7 @@ func run(c *hc.Ctx) error {
 	}
 	wg.Wait()
 	failSeen := map[string]int{}
+	parInfo := map[int]parObs{}
 	for i, v := range cases {
 		res := results[i]
 		w := v.w
@@ -960,7 +999,12 @@ func run(c *hc.Ctx) error {
 			if !bytes.Equal(res.data, w.file) {
 				key := "verified-download-wrong-bytes"
 				detail := fmt.Sprintf("completed with %d bytes, genuine file has %d (tamper=%s)", len(res.data), len(w.file), v.tamper)
-				if len(res.data) < len(w.file) && bytes.Equal(res.data, w.file[:len(res.data)]) {
+				if v.mode == "A" && v.threads > 0 && gapOnly(res, w.file) {
+					// same root cause as the truncation findings (a short / empty inline-CDN answer is taken
+					// for the end of the file), seen through Parallel: the worker that got it stops the
+					// download while workers that had already taken later offsets still write their parts
+					key = "inline-cdn-truncation-parallel-gap"
+				} else if len(res.data) < len(w.file) && bytes.Equal(res.data, w.file[:len(res.data)]) {
 					onBoundary := len(res.data) == 0
 					for _, h := range w.wins {
 						if h.off == len(res.data) {
@@ -997,6 +1041,18 @@ func run(c *hc.Ctx) error {
 		if v.threads > 0 {
 			// Parallel: which worker's error surfaces first is up to the scheduler — compare ok/err only
 			impl = "par:" + impl
+			n := contiguous(res)
+			if n > len(res.data) {
+				n = len(res.data)
+			}
+			sum := sha256.Sum256(res.data[:n])
+			genuine := res.err == nil && len(res.data) <= len(w.file)
+			for i := 0; genuine && i < len(res.data); i++ {
+				if (res.written == nil || res.written[i]) && res.data[i] != w.file[i] {
+					genuine = false
+				}
+			}
+			parInfo[len(lines)] = parObs{fileLen: len(w.file), contig: fmt.Sprintf("ok len=%d sha=%s", n, hex.EncodeToString(sum[:])), genuine: genuine, failed: res.err != nil}
 		}
 		add(line, impl)
 	}
@@ -1014,6 +1070,17 @@ func run(c *hc.Ctx) error {
 			impls[i] = strings.TrimPrefix(impls[i], "par:")
 			if strings.HasPrefix(impls[i], "err ") && strings.HasPrefix(o, "err ") {
 				o = impls[i]
+			}
+			// The model is the streamed download.  When it accepts a truncation (completes with a strict
+			// prefix — the open findings), a Parallel run additionally fetches whatever later parts its
+			// workers had already taken: they may write genuine data behind a hole or fail.  Only the
+			// scheduler-independent part is compared: the contiguously written prefix, if the run succeeded.
+			pi := parInfo[i]
+			var ml int
+			if _, err := fmt.Sscanf(o, "ok len=%d", &ml); err == nil && ml < pi.fileLen {
+				if pi.failed || (pi.genuine && pi.contig == o) {
+					impls[i] = o
+				}
 			}
 		}
 		if c.Compare(clip(lines[i]), impls[i], o) {
